@@ -83,6 +83,8 @@ func main() {
 		for _, k := range keys {
 			fmt.Println(k)
 		}
+	case "sweep":
+		os.Exit(cmdSweep(verifDir, repoDir, os.Args[2:]))
 	case "replay":
 		os.Exit(cmdReplay(verifDir, repoDir, os.Args[2:]))
 	default:
@@ -269,4 +271,69 @@ func cmdCheck(verifDir, repoDir string, args []string) int {
 	rep.tLoad, rep.tGen = tLoad.Seconds(), tGen.Seconds()
 	rep.verbose = verbose
 	return rep.finish(cfg)
+}
+
+// sweep: zero-annotation safety check of every function of the module (development aid).
+func cmdSweep(verifDir, repoDir string, args []string) int {
+	p, err := loadProg(repoDir, verifDir)
+	if err != nil {
+		fmt.Println("ENGINE-ERROR", err)
+		return 2
+	}
+	filter := ""
+	if len(args) > 0 {
+		filter = args[0]
+	}
+	var keys []string
+	for k, fn := range p.fns {
+		if strings.HasPrefix(k, "::") || fn.Blocks == nil || fn.Synthetic != "" || strings.Contains(k, "$") {
+			continue
+		}
+		if strings.Contains(k, "::init") || strings.Contains(k, "verifLemma") {
+			continue
+		}
+		if filter != "" && !strings.Contains(k, filter) {
+			continue
+		}
+		keys = append(keys, k)
+	}
+	sort.Strings(keys)
+	tmp, _ := os.MkdirTemp("", "rtpverify-sweep")
+	defer os.RemoveAll(tmp)
+	cfg := &solverCfg{quickTO: 5, fallback: 5, seed: 0, workers: runtime.NumCPU() / 2, tmp: tmp}
+	for _, k := range keys {
+		i := strings.Index(k, "::")
+		t := target{k[:i], k[i+2:]}
+		fr := p.verifyFunc(t, nil)
+		if fr.Err != "" {
+			fmt.Printf("%-70s ENGINE-ERROR %s\n", fr.Name, fr.Err)
+			continue
+		}
+		var obls []*Obl
+		for _, o := range fr.Ctx.obls {
+			if o.Kind == "safety" || o.Kind == "decreases" || o.Kind == "vacuity" {
+				obls = append(obls, o)
+			}
+		}
+		dischargeAll(obls, cfg)
+		bad := 0
+		var names []string
+		for _, o := range obls {
+			if o.Verdict != "discharged" && o.Verdict != "ok" {
+				bad++
+				if len(names) < 4 {
+					names = append(names, strings.TrimPrefix(o.Name, fr.Name+":")+"@"+o.Pos+"["+o.Verdict+"]")
+				}
+			}
+		}
+		loops := 0
+		fn := p.lookupFunc(t.pkg, t.ref)
+		for _, b := range fn.Blocks {
+			if isLoopHeader(b) {
+				loops++
+			}
+		}
+		fmt.Printf("%-70s obls=%-4d failed=%-3d loops=%d %s\n", fr.Name, len(obls), bad, loops, strings.Join(names, " "))
+	}
+	return 0
 }
